@@ -205,6 +205,14 @@ def render(n, ids=True, depth=0):
     return "%s(%s)" % (k, ", ".join(r(x) for x in c))
 
 
+import re as _re
+
+
+def noid(s):
+    """drop the #declid suffixes of a rendered expression"""
+    return _re.sub(r"#\d+", "", s)
+
+
 class Func:
     __slots__ = ("d", "tu", "_nodes", "_parent", "_cfg", "prog")
 
